@@ -33,6 +33,10 @@ CHECKS={
         "Helpers: both circular swaps on all permutations of length <= 5 (quick) / 7 (thorough) with all tuples of >= 2 distinct indices (70 M cases thorough); both slice translocations on all non-empty ranges and insertion indices; multi-point / uniform / arithmetic / cycle crossover on all cut sets, masks, alpha vectors and permutation pairs. Components: every mutation, crossover and DE operator (parameter grid from the documentation) on populations of 1..3 solutions for every tape of menu words over the first 4 / 5 draws: well-formedness, gene conservation, offspring counts, documented parameter acceptance, no panic, no error on valid populations.",
         "Random behaviour covered for menu words within the prefix depth; solution lengths <= 5 for components. Documented parameter ranges are read from the doc comments.",
         "DESIGN.md 5 C13"),
+ "C14":("choice-tape explorer + watchdog worker","stateless exhaustive exploration of every initialisation operator under all generator-word tapes to a prefix depth; exhaustive enumeration of a coordinate grid around four domains for every boundary operator (the resampling operator under all <= 1/2 deviations of its generator words), each case in a killable worker subprocess so that non-termination is decided",
+        "Initialisation: every operator x population sizes 0..3 x dimensions x domains for every tape of menu words over the first 4 / 5 draws (count, unevaluated, dimension, closed-interval bounds, permutation validity, stack effect). Boundary repair: 4 operators x 4 domains x {bounds, their float neighbours, interior points, a - k*w and b + k*w for k in 1/4..10^3, mixed 3-d vectors}: terminates, result within [a,b] (4 ulp), inside coordinates bit-identical, second application changes nothing.",
+        "Non-termination is decided by a 10 s wall budget per case (terminating cases take milliseconds) -- the only place where time enters a verdict. 'Inside' is the closed interval [a,b]. Finite solutions only.",
+        "DESIGN.md 5 C14"),
 }
 CHECKS_DONE=1
 BASE=json.load(open('/root/.vp/BASELINE.json'))
